@@ -28,10 +28,11 @@ theorem subresource_eq (h : Handler) (c : Cause) :
 /-- `iter_handlers` with `match()` = subresource test ∧ the remaining filters -/
 theorem gate_eq (h : Handler) (c : Cause) (m : Bool) :
     Extracted.gate h c (Extracted.matchesSubresource h c && m) = gate h c m := by
-  simp only [Extracted.gate, gate, subresource_eq]
+  simp only [Extracted.gate, gate, subresource_eq, matchingOperation]
   try (
     cases (c.reason == none || c.reason == some h.reason) <;>
     cases (c.webhook == none || c.webhook == some h.id) <;>
+    cases (!opsTruthy h || c.operation == none || opsContains h "*" || opInOps h c) <;>
     cases (h.reason != WebhookType.mutating || c.operation != some "DELETE" || explicitlyForDeletion h) <;>
     cases (matchesSubresource h c) <;> cases m <;> simp)
 
